@@ -1071,3 +1071,70 @@ func endsInPanic(b *ssa.BasicBlock) bool {
 	_, ok := b.Instrs[len(b.Instrs)-1].(*ssa.Panic)
 	return ok
 }
+
+// ---------------------------------------------------------------- loops
+
+// Loop is a natural loop: header plus the blocks that can reach a back edge source without leaving through the header.
+type Loop struct {
+	Header *ssa.BasicBlock
+	Body   map[*ssa.BasicBlock]bool // includes Header
+}
+
+// loopsOf finds natural loops by back edges (b→h with h dominating b); loops sharing a header are merged.
+func loopsOf(fn *ssa.Function) []*Loop {
+	by := map[*ssa.BasicBlock]*Loop{}
+	var out []*Loop
+	for _, b := range fn.Blocks {
+		for _, h := range b.Succs {
+			if !h.Dominates(b) {
+				continue
+			}
+			l := by[h]
+			if l == nil {
+				l = &Loop{Header: h, Body: map[*ssa.BasicBlock]bool{h: true}}
+				by[h] = l
+				out = append(out, l)
+			}
+			// body: all blocks that reach b backwards without passing h
+			work := []*ssa.BasicBlock{b}
+			for len(work) > 0 {
+				x := work[len(work)-1]
+				work = work[:len(work)-1]
+				if l.Body[x] {
+					continue
+				}
+				l.Body[x] = true
+				work = append(work, x.Preds...)
+			}
+		}
+	}
+	return out
+}
+
+// exitsInsideLoop lists Return instructions reachable from a loop-body block without passing through the loop header
+// again, i.e. returns taken in the middle of an iteration (the normal exit leaves through the header).
+func returnsFromInsideLoop(fn *ssa.Function, l *Loop) []*ssa.Return {
+	seen := map[*ssa.BasicBlock]bool{l.Header: true}
+	var work []*ssa.BasicBlock
+	for b := range l.Body {
+		if b != l.Header {
+			work = append(work, b)
+		}
+	}
+	var out []*ssa.Return
+	for len(work) > 0 {
+		b := work[len(work)-1]
+		work = work[:len(work)-1]
+		if seen[b] {
+			continue
+		}
+		seen[b] = true
+		if len(b.Instrs) > 0 {
+			if r, ok := b.Instrs[len(b.Instrs)-1].(*ssa.Return); ok {
+				out = append(out, r)
+			}
+		}
+		work = append(work, b.Succs...)
+	}
+	return out
+}
